@@ -13,6 +13,98 @@ const FREED: u8 = 0xDD;
 pub struct Guard;
 
 static ENABLED: AtomicBool = AtomicBool::new(false);
+/// Page-guard mode: every new block ends exactly at an inaccessible page, so that an over-READ
+/// (which red zones cannot see) or over-write past the end faults at the offending instruction.
+static PAGE_MODE: AtomicBool = AtomicBool::new(false);
+const PAGE: usize = 4096;
+const RZ_MARK: u64 = 0x6A11_0C8D_6A11_0C8D;
+const PG_MARK: u64 = 0x9A6E_6A4D_9A6E_6A4D;
+
+
+// Pool of pre-mapped slots, each one data page followed by one inaccessible guard page. A block
+// is placed so that it ENDS exactly at the guard page (modulo its alignment). No system call per
+// allocation; blocks larger than a page (or a drained pool) fall back to the red-zone scheme.
+const SLOTS: usize = 16384;
+const SLOT_BYTES: usize = 2 * PAGE;
+static POOL_BASE: AtomicU64 = AtomicU64::new(0);
+static POOL_LOCK: AtomicBool = AtomicBool::new(false);
+static mut FREE_STACK: [u32; SLOTS] = [0; SLOTS];
+static mut FREE_TOP: usize = 0;
+static mut NEXT_FRESH: usize = 0;
+
+pub fn set_page_mode(on: bool) {
+    if on && POOL_BASE.load(Ordering::SeqCst) == 0 {
+        unsafe {
+            let base = libc::mmap(std::ptr::null_mut(), SLOTS * SLOT_BYTES, libc::PROT_READ | libc::PROT_WRITE, libc::MAP_PRIVATE | libc::MAP_ANONYMOUS | libc::MAP_NORESERVE, -1, 0);
+            if base == libc::MAP_FAILED {
+                return;
+            }
+            // guard pages are protected lazily, when a slot is used for the first time
+            FREE_TOP = 0;
+            NEXT_FRESH = 0;
+            POOL_BASE.store(base as u64, Ordering::SeqCst);
+        }
+    }
+    PAGE_MODE.store(on, Ordering::SeqCst);
+}
+pub fn page_mode() -> bool {
+    PAGE_MODE.load(Ordering::Relaxed)
+}
+
+#[inline]
+fn lock() {
+    while POOL_LOCK.compare_exchange_weak(false, true, Ordering::Acquire, Ordering::Relaxed).is_err() {
+        std::hint::spin_loop();
+    }
+}
+#[inline]
+fn unlock() {
+    POOL_LOCK.store(false, Ordering::Release);
+}
+
+/// Returns null if the block does not fit a slot or the pool is drained.
+unsafe fn page_alloc(l: Layout) -> *mut u8 {
+    let size_r = (l.size() + l.align() - 1) & !(l.align() - 1);
+    if size_r + RZ > PAGE {
+        return std::ptr::null_mut();
+    }
+    lock();
+    let mut fresh = false;
+    let slot = if FREE_TOP > 0 {
+        FREE_TOP -= 1;
+        Some(FREE_STACK[FREE_TOP])
+    } else if NEXT_FRESH < SLOTS {
+        NEXT_FRESH += 1;
+        fresh = true;
+        Some((NEXT_FRESH - 1) as u32)
+    } else {
+        None
+    };
+    unlock();
+    let slot = match slot {
+        Some(s) => s as usize,
+        None => return std::ptr::null_mut(),
+    };
+    let base = (POOL_BASE.load(Ordering::Relaxed) as usize + slot * SLOT_BYTES) as *mut u8;
+    if fresh {
+        libc::mprotect(base.add(PAGE) as *mut libc::c_void, PAGE, libc::PROT_NONE);
+    }
+    let p = base.add(PAGE - size_r);
+    (p.sub(RZ) as *mut u64).write_unaligned(PG_MARK);
+    std::ptr::write_bytes(p, FRESH, l.size());
+    p
+}
+
+unsafe fn page_dealloc(p: *mut u8, l: Layout) {
+    std::ptr::write_bytes(p, FREED, l.size());
+    (p.sub(RZ) as *mut u64).write_unaligned(0);
+    let slot = (p as usize - POOL_BASE.load(Ordering::Relaxed) as usize) / SLOT_BYTES;
+    lock();
+    FREE_STACK[FREE_TOP] = slot as u32;
+    FREE_TOP += 1;
+    unlock();
+}
+
 static ERRORS: AtomicU64 = AtomicU64::new(0);
 static FIRST_SIZE: AtomicU64 = AtomicU64::new(0);
 static FIRST_SIDE: AtomicU64 = AtomicU64::new(0);
@@ -59,6 +151,12 @@ unsafe impl GlobalAlloc for Guard {
         if !guarded(&l) {
             return System.alloc(l);
         }
+        if PAGE_MODE.load(Ordering::Relaxed) {
+            let p = page_alloc(l);
+            if !p.is_null() {
+                return p;
+            }
+        }
         let total = match l.size().checked_add(2 * RZ) {
             Some(t) => t,
             None => return std::ptr::null_mut(),
@@ -69,7 +167,7 @@ unsafe impl GlobalAlloc for Guard {
         }
         // header: first 8 bytes hold a marker telling dealloc this block is guarded
         std::ptr::write_bytes(base, RZ_BYTE, RZ);
-        (base as *mut u64).write(0x6A11_0C8D_6A11_0C8D);
+        (base as *mut u64).write(RZ_MARK);
         (base as *mut u64).add(1).write(l.size() as u64);
         std::ptr::write_bytes(base.add(RZ), FRESH, l.size());
         std::ptr::write_bytes(base.add(RZ + l.size()), RZ_BYTE, RZ);
@@ -81,8 +179,11 @@ unsafe impl GlobalAlloc for Guard {
         }
         let base = p.sub(RZ);
         let size = l.size();
+        if (base as *mut u64).read_unaligned() == PG_MARK {
+            return page_dealloc(p, l);
+        }
         if ENABLED.load(Ordering::Relaxed) {
-            if (base as *mut u64).read() != 0x6A11_0C8D_6A11_0C8D || (base as *mut u64).add(1).read() != size as u64 {
+            if (base as *mut u64).read() != RZ_MARK || (base as *mut u64).add(1).read() != size as u64 {
                 if ERRORS.fetch_add(1, Ordering::SeqCst) == 0 {
                     FIRST_SIZE.store(size as u64, Ordering::SeqCst);
                     FIRST_SIDE.store(3, Ordering::SeqCst);
